@@ -60,7 +60,7 @@ def build(p, lens, mp, mlens, fp, flens, td_kind, td_place, nsdepth):
         td_target = ("declaration", "TdForeign", "%sForeign<double>" % q)
     fillers = ["class Plain { Plain(); };", "enum Col { R };", "int var;", "void freeFn(int z);", "class Foreign;"]
     body = [fillers[0], cls, fillers[1], fillers[4], fun, fillers[2], fillers[3]]
-    outer_before, inner_sub = "", ""
+    outer_before, inner_sub, outer_after = "", "", ""
     if td:
         if td_place == 0:
             body.insert(0, td)
@@ -70,11 +70,15 @@ def build(p, lens, mp, mlens, fp, flens, td_kind, td_place, nsdepth):
             outer_before = td + "\n"
         elif td_place == 3:
             inner_sub = " namespace sub { %s }" % td
+        elif td_place == 4 and nsdepth > 0:
+            outer_after = "\n" + td                                  # at global scope AFTER the template's namespace block
+        elif td_place == 5:
+            outer_after = "\nnamespace later { %s }" % td            # in a sibling namespace after it
         else:
             body.append(td)
             td_place = 1
     text = ("namespace ns { class A { A(); }; }\nnamespace other { namespace deep { class B { B(); }; } }\n" + outer_before +
-            "".join("namespace %s { " % x for x in nss) + " ".join(body) + inner_sub + " }" * nsdepth)
+            "".join("namespace %s { " % x for x in nss) + " ".join(body) + inner_sub + " }" * nsdepth + outer_after)
     # ---- expectation: (kind, name, cpp) in order inside the namespace
     exp = [("class", "Plain", q + "Plain")]
     for combo in product(lens):
@@ -145,7 +149,9 @@ def check(p, lens, mp, mlens, fp, flens, td_kind, td_place, nsdepth):
     if td_exp:
         if td_place in (0, 1):
             want.append(td_exp)               # typedef instantiations come after the namespace's own content, once
-        elif td_place == 2:
+        elif td_place == 5:
+            td_scope_items = [(kind_of(e), e.name, e.to_cpp()) for s in mod.content if kind_of(s) == "namespace" and s.name == "later" for e in s.content]
+        elif td_place in (2, 4):
             td_scope_items = [(kind_of(e), e.name, e.to_cpp()) for e in mod.content if kind_of(e) in ("class", "function", "declaration")
                               and e.name.startswith("Td")]
         else:
@@ -191,12 +197,13 @@ def c08_product(p: int, l0: int, l1: int, l2: int, mp: int, ml: int, fp: int, fl
 def c08_typedefs(td_kind: int, td_place: int, p: int, nsdepth: int, l0: int) -> bool:
     """
     typedef of a class template / function template / forward-declared foreign template, placed before or after
-    its target, in the target's namespace, at global scope before it, or in a nested namespace: exactly one
+    its target, in the target's namespace, at global scope before or after its namespace block, in a nested namespace
+    or in a sibling namespace after it: exactly one
     further instantiation carrying the typedef's name and referring to Name<args> in the TEMPLATE's namespace.
-    pre: 1 <= td_kind <= 3 and 0 <= td_place <= 3 and 1 <= p <= 2 and 0 <= nsdepth <= 2 and 0 <= l0 <= 2
+    pre: 1 <= td_kind <= 3 and 0 <= td_place <= 5 and 1 <= p <= 2 and 0 <= nsdepth <= 2 and 0 <= l0 <= 2
     post: _
     """
-    td_kind, td_place, p, nsdepth, l0 = pick(td_kind, 1, 4), pick(td_place, 0, 4), pick(p, 1, 3), pick(nsdepth, 0, 3), pick(l0, 0, 3)
+    td_kind, td_place, p, nsdepth, l0 = pick(td_kind, 1, 4), pick(td_place, 0, 6), pick(p, 1, 3), pick(nsdepth, 0, 3), pick(l0, 0, 3)
     with concrete():
         ok = check(p, [l0, 1, 0], 1, [1, 1], p, [l0, 1], td_kind, td_place, nsdepth)
     reached({"typedef": td_kind, "place": td_place, "p": p, "nsdepth": nsdepth})
